@@ -105,6 +105,7 @@ const (
 	opHasBody = iota
 	opRead
 	opClose
+	opCopy // the rest of the body is consumed with io.Copy (which prefers the body's own WriteTo, if it has one)
 )
 
 type step struct {
@@ -190,6 +191,7 @@ func (prop) Run(t *testing.T, tape *kernel.Tape, sc kernel.Scenario) *kernel.Res
 			}
 			st.Data = content[:off]
 			st.Term = &kernel.InjectedError{What: fmt.Sprintf("read error at %d", off)}
+			st.ErrOnce = tape.Bool(3, "error-reported-once")
 		}
 		switch tape.Weighted("declared", 6, 2, 2) {
 		case 0:
@@ -204,12 +206,14 @@ func (prop) Run(t *testing.T, tape *kernel.Tape, sc kernel.Scenario) *kernel.Res
 		}
 		nsteps := 1 + tape.Choose(12, "nsteps")
 		for i := 0; i < nsteps; i++ {
-			switch tape.Weighted("step", 4, 3, 1) {
+			switch tape.Weighted("step", 4, 3, 1, 1) {
 			case 0:
 				sizes := []int{16384, 0, 1, 2, 7, 512, 4096, 4097}
 				script = append(script, step{opRead, sizes[tape.Choose(len(sizes), "bufsize")]})
 			case 1:
 				script = append(script, step{op: opHasBody})
+			case 3:
+				script = append(script, step{op: opCopy})
 			default:
 				script = append(script, step{op: opClose})
 			}
@@ -360,6 +364,9 @@ func (prop) Run(t *testing.T, tape *kernel.Tape, sc kernel.Scenario) *kernel.Res
 				env.Probe("read-after-close")
 				if n > 0 || (err == nil && len(buf) > 0) {
 					env.Violate("C17/read-after-close", bodyKind, "step %d: read after close returned %d,%v", i, n, err)
+				} else if err == io.EOF && len(buf) > 0 && !nilBody {
+					// a clean end of stream is not a failure: io.ReadAll and friends report success on it
+					env.Violate("C17/read-after-close", bodyKind+":reported-as-a-clean-end", "step %d: read after close returned %d,%v — the end-of-stream marker, not a failure", i, n, err)
 				}
 				continue
 			}
@@ -376,11 +383,57 @@ func (prop) Run(t *testing.T, tape *kernel.Tape, sc kernel.Scenario) *kernel.Res
 					env.Violate("C17/terminal-wrong", bodyKind+":early", "step %d: error %v after %d of %d bytes", i, err, m.delivered, len(m.data))
 					goto done
 				}
-				if err != m.term {
-					env.Violate("C17/terminal-wrong", bodyKind+":other", "step %d: terminal condition %v, original was %v", i, err, m.term)
+				wantTerm := m.term
+				if m.termSeen && st.ErrOnce {
+					wantTerm = io.EOF // the stream reports its error once; after that it is simply at its end
+				}
+				if err != wantTerm {
+					cls := bodyKind + ":other"
+					if st.ErrOnce && !m.termSeen && err == io.EOF {
+						cls = bodyKind + ":error-reported-once-was-lost"
+					}
+					env.Violate("C17/terminal-wrong", cls, "step %d: terminal condition %v, original was %v", i, err, wantTerm)
 				}
 				m.termSeen = true
 			}
+		case opCopy:
+			lastProbe = nil
+			if req.Body == nil {
+				continue
+			}
+			var sink bytes.Buffer
+			var n int64
+			var err error
+			if pm := kernel.Catch(func() { n, err = io.Copy(&sink, req.Body) }); pm != "" {
+				env.Violate("C17/panic", bodyKind+":Copy", "step %d: io.Copy from the body panicked: %s", i, pm)
+				goto done
+			}
+			env.Log("caller", "io.Copy → %d,%v", n, err)
+			if m.closed {
+				env.Probe("read-after-close")
+				if n > 0 || (err == nil && !nilBody) {
+					env.Violate("C17/read-after-close", bodyKind+":copy", "step %d: io.Copy from the closed body returned %d,%v", i, n, err)
+				}
+				continue
+			}
+			rest := m.data[m.delivered:]
+			if !bytes.Equal(sink.Bytes(), rest) {
+				env.Violate("C17/bytes-mismatch", bodyKind+":copy", "step %d: io.Copy delivered %d bytes from offset %d, the stream has %d left (first difference at %d)", i, sink.Len(), m.delivered, len(rest), firstDiff(sink.Bytes(), rest))
+				goto done
+			}
+			m.delivered = len(m.data)
+			wantErr := m.term
+			if wantErr == io.EOF || (m.termSeen && st.ErrOnce) {
+				wantErr = nil
+			}
+			if err != wantErr {
+				cls := bodyKind + ":copy"
+				if st.ErrOnce && !m.termSeen && err == nil {
+					cls = bodyKind + ":error-reported-once-was-lost"
+				}
+				env.Violate("C17/terminal-wrong", cls, "step %d: io.Copy ended with %v, the stream's terminal condition is %v", i, err, m.term)
+			}
+			m.termSeen = true
 		case opClose:
 			lastProbe = nil
 			if req.Body == nil {
@@ -453,4 +506,14 @@ func scriptString(s []step) string {
 		}
 	}
 	return strings.TrimSpace(sb.String())
+}
+
+func firstDiff(a, b []byte) int {
+	n := min(len(a), len(b))
+	for i := 0; i < n; i++ {
+		if a[i] != b[i] {
+			return i
+		}
+	}
+	return n
 }
